@@ -173,14 +173,17 @@ c13_case(void (*fn)(void)) {
 	}
 }
 
-/* Run a library call outside of a counted case (used to decide, identically in every shard,
- * whether the library's own validator accepts the input).  Returns 0 when it hung. */
+/* Run the library's own validator outside of a counted case (to decide, identically in every
+ * shard, whether a packet is "accepted").  Returns 0 when the call hung or crashed: that is the
+ * validator's defect and is reported with a proper case index by the validator's own group;
+ * here the rest of this group is only counted (NOTE cut). */
 static inline int
 c13_probe(void (*fn)(void), const char *target) {
+	int r;
+
 	if (c13_abandon)
 		return (0);
-	int r = sigsetjmp(c13_jb, 0);
-
+	r = sigsetjmp(c13_jb, 0);
 	if (0 == r) {
 		c13_tick_seen = 0;
 		c13_in_case = 1;
@@ -189,12 +192,9 @@ c13_probe(void (*fn)(void), const char *target) {
 		return (1);
 	}
 	c13_in_case = 0;
-	vh_cur = vh_target_id(target);
-	vh_desc_set = 0;
-	if (2 == r)
-		vh_fail("crash:SIGSEGV", "the call died with SIGSEGV/SIGBUS (access to an unmapped page)");
-	else
-		c13_hang_seen();
+	c13_abandon = 1;
+	printf("NOTE\tcut\tprobe call of %s %s: rest of the group counted, not run\n", target,
+	    (2 == r) ? "crashed" : "did not terminate");
 	return (0);
 }
 
@@ -257,8 +257,10 @@ c13_finish_child(void) { /* vh_finish() without DONE */
 	fflush(stdout);
 }
 
+/* targets: comma separated list of the target names this group produces (used only to skip the
+ * group when a single case is replayed with --only target#index). */
 static void
-c13_group(const char *name, void (*fn)(void)) {
+c13_group(const char *name, void (*fn)(void), const char *targets) {
 	int pfd[2], st = 0;
 	pid_t pid;
 	uint64_t g = 0;
@@ -266,6 +268,20 @@ c13_group(const char *name, void (*fn)(void)) {
 
 	if (NULL != c13_group_filter && 0 != strcmp(c13_group_filter, name))
 		return;
+	if (NULL != vh_only_target && NULL != targets) {
+		const char *q = targets;
+		size_t l = strlen(vh_only_target);
+		int found = 0;
+		while (NULL != (q = strstr(q, vh_only_target))) {
+			if ((q == targets || ',' == q[-1]) && (0 == q[l] || ',' == q[l])) {
+				found = 1;
+				break;
+			}
+			q ++;
+		}
+		if (0 == found)
+			return;
+	}
 	fflush(stdout);
 	if (0 != pipe(pfd))
 		_exit(72);
